@@ -85,6 +85,15 @@ partial def tyOf : Sexp → Option Ty
   | .list [.atom "typ", t] => (tyOf t).map .typ
   | _ => none
 
+/-- `(ot xNAME incl (xATTR*) (pos*))`: the descriptor of an Object type of the harness's catalogue -/
+def otypeOf : Sexp → Option OType
+  | .list [.atom "ot", n, i, .list ns, .list ps] => do
+      let n ← n.bytes?; let i ← i.bool?
+      let ns ← ns.mapM (fun (e : Sexp) => e.bytes?)
+      let ps ← ps.mapM (fun (e : Sexp) => e.nat?)
+      if ps.all (· < ns.length) then some { name := n, incl := i, names := ns, eqPos := ps } else none
+  | _ => none
+
 partial def valOf : Sexp → Option Val
   | .list [.atom "u"] => some .undef
   | .list [.atom "d"] => some .dflt
@@ -120,6 +129,10 @@ partial def valOf : Sexp → Option Val
       if rs.isEmpty then none else some (.vrange o rs)
   | .list [.atom "tn", a, n, m] => do let a ← a.bytes?; let n ← n.bytes?; let m ← m.bytes?; pure (mkTname a n m)
   | .list (.atom "df" :: n :: as) => do let n ← n.bytes?; let as ← as.mapM valOf; pure (.deferred n as)
+  | .list (.atom "obj" :: t :: k :: vs) => do
+      -- K = how many values the constructor was given (the others are the attribute defaults, listed all the same)
+      let t ← otypeOf t; let k ← k.nat?; let vs ← vs.mapM valOf
+      if vs.length == t.names.length && k ≤ vs.length then some (.obj t vs) else none
   | .list [.atom "par", n, t, .atom "n", c] => do
       let n ← n.bytes?; let t ← tyOf t; let c ← c.bool?; pure (.param n t false .undef c)
   | .list [.atom "par", n, t, .list [.atom "v", v], c] => do
@@ -180,6 +193,7 @@ partial def valStr : Val → String
   | .vrange o rs => "(vr " ++ hexB (rangeStr o rs) ++ " " ++ hexB (normStr rs) ++ ")"
   | .tname a n m => "(tn " ++ hexB a ++ " " ++ hexB n ++ " " ++ hexB m ++ ")"
   | .deferred n as => "(df " ++ hexB n ++ String.join (as.map fun v => " " ++ valStr v) ++ ")"
+  | .obj t vs => "(obj " ++ hexB t.name ++ String.join (vs.map fun v => " " ++ valStr v) ++ ")"
   | .param n t h v c => "(par " ++ hexB n ++ " " ++ tyStr t ++ " " ++ (if h then "(v " ++ valStr v ++ ")" else "n") ++ " " ++
       boolStr c ++ ")"
 
